@@ -172,6 +172,22 @@ claim('C06',
       'accordingly.',
       'DESIGN.md 4 C06')
 
+claim('C16',
+      '"Error instead of silent NaN" clause. (A) Function and loop contracts on the real helpers check_args, check_result, '
+      'format_eval_error, check_const_arg, check_int_arg, check_uint_arg, check_zero_func_args, check_deriv_arg, check_bessel_args for '
+      'any argument count. (B) For every binding registered with ADDFUNC (table read on each run; quick tier: a seed-chosen 10% sample plus '
+      'five fixed ones, thorough tier: all ~342) the real body is checked with every gsl_* function given an arbitrary result: '
+      'when no error message is set the value and the requested derivative / Hessian entries are not NaN, derivative arrays '
+      'are written only inside their n and n(n+1)/2 entries, no signed overflow in the derivative formulas; the helper loops are '
+      'bounded by the arity constant, so the per-binding checks are complete.',
+      'Trusted: CBMC, extractor (whole binding section compiled as C), the funcadd.h stub written from ASL\'s public interface, the '
+      'installed GSL headers, GSL functions and the libm functions CBMC has no model for as arbitrary. The float->int casts of '
+      'arguments that precede their validation are not obligations of this property. Not decided: agreement of derivatives with '
+      'numerical differentiation, determinism of GSL, the per-function rule "derivative w.r.t. an integer argument is an error", '
+      'stale derivative slots.',
+      'DESIGN.md 4 C16',
+      technique='contract-based deductive verification: CBMC 6.11 DFCC function/loop contracts for the helpers; per-binding assertions over the real extracted bodies (loops bounded by the arity constant: complete)')
+
 for pid, reason in [
     ('C01', 'relational whole-pipeline equivalence across ~12k lines of CRTP templates; no function boundary carries it and the code is outside the mechanically extractable C subset (DESIGN.md 5)'),
     ('C09', 'whole-process behaviour (exit status, files, exception propagation through try/catch) - not expressible as function contracts here (DESIGN.md 5)'),
